@@ -444,4 +444,6 @@ def run(P, R, tier):
     from ..report import Remap
     c15.notification(P, Remap(R, {'C15.GRD.1': 'C16.GRD.3', 'C15.MPT.1': 'C16.GRD.3'}))
     c15.removal_guard(P, Remap(R, {'C15.GRD.2': 'C16.GRD.4', 'C15.GRD.3': 'C16.GRD.4'}))
+    # a file that is read is applied: the tree afterwards is the one written in the file
+    c15.load_merges(P, Remap(R, {'C15.MPT.3': 'C16.MPT.2', 'C15.WMC.1': 'C16.MPT.2'}))
     return EXPLANATION, ASSUMPTIONS
